@@ -66,6 +66,19 @@ func (e *Engine) VerifyFunc(c *Contract) {
 	for _, r := range c.Requires {
 		sc := fc.specCtx(st, nil)
 		sc.pol = -1
+		// "param == <slice/map valued expr>": bind the parameter instead of a quantified equation
+		if be, ok := r.Expr.(*ast.BinaryExpr); ok && be.Op == token.EQL {
+			if id, ok := be.X.(*ast.Ident); ok {
+				if obj, ok := st.names[id.Name]; ok {
+					if _, isSlice := st.vars[obj].(*SliceV); isSlice {
+						if rv, ok := sc.tryEval(be.Y).(*SliceV); ok {
+							st.vars[obj] = rv
+							continue
+						}
+					}
+				}
+			}
+		}
 		st.Assume(sc.evalBool(r.Expr))
 	}
 	fc.entry = st.Clone()
@@ -240,8 +253,50 @@ func (e *Engine) LemmaObligation(lm *Lemma) {
 		hyps = append(hyps, st.pc...)
 		e.addObl(&Obligation{Name: name, Kind: "lemma", Func: name, Hyps: hyps, Goal: goal, Note: lm.Text})
 	default:
+		if strings.HasPrefix(lm.By, "compute") {
+			e.computeLemma(lm, name)
+			return
+		}
 		e.rejected[name] = "unknown lemma back end " + lm.By
 	}
+}
+
+// computeLemma: `by compute(lo, hi)` — the single Int parameter ranges over
+// [lo, hi); the statement is evaluated for every value (tables and languages
+// are constants, so each instance folds to a boolean).
+func (e *Engine) computeLemma(lm *Lemma, name string) {
+	var lo, hi int
+	if n, _ := fmt.Sscanf(strings.ReplaceAll(lm.By, " ", ""), "compute(%d,%d)", &lo, &hi); n != 2 || len(lm.Params) != 1 {
+		panic(unsupported("lemma %s: expected `by compute(lo, hi)` and one parameter", lm.Name))
+	}
+	pkg := e.pkgs[lm.Pkg]
+	fc := &FnCtx{e: e, pkg: pkg, name: name, counters: map[string]int{}, modified: map[types.Object]bool{}}
+	bad := ""
+	for v := lo; v < hi; v++ {
+		st := NewState()
+		ec := &evalCtx{fc: fc, st: st, spec: true, scope: map[string]Value{lm.Params[0]: Int(int64(v))}, pkg: pkg, noLocals: true}
+		var hyp *Term = True
+		if lm.Hyps != nil {
+			hyp = ec.evalBool(lm.Hyps)
+		}
+		res := Implies(hyp, ec.evalBool(lm.Concl))
+		if !res.IsTrue() {
+			if res.IsFalse() {
+				bad = fmt.Sprintf("fails for %s = %d", lm.Params[0], v)
+			} else {
+				bad = fmt.Sprintf("does not fold to a constant for %s = %d: %s", lm.Params[0], v, res.Key())
+			}
+			break
+		}
+	}
+	o := &Obligation{Name: name, Kind: "lemma", Func: name, Note: lm.Text, Goal: True, Solver: fmt.Sprintf("compute(%d values)", hi-lo)}
+	if bad == "" {
+		o.Verdict = "unsat"
+	} else {
+		o.Verdict = "sat"
+		o.Output = bad
+	}
+	e.addObl(o)
 }
 
 // paramSort: lemma parameter sorts by naming convention: names beginning with
